@@ -790,6 +790,8 @@ void OPNMIDIplay::realTime_PatchChange(uint8_t channel, uint8_t patch)
 {
     if(static_cast<size_t>(channel) >= m_midiChannels.size())
         channel = channel % 16;
+    if(patch > 127) // Program numbers are 7-bit; banks have 128 entries
+        patch = 127;
     m_midiChannels[channel].patch = patch;
 }
 
